@@ -32,7 +32,7 @@ def counts(out):
 def main():
     a = sys.argv[1:]
     base, pid, k = a[0], a[1], a[2]
-    opt = {"--tests": "", "--demo-dest": "", "--mod-file": "", "--mod-line": "", "--filter": "", "--features": "", "--demo-crate": "", "--demo-tests": ""}
+    opt = {"--tests": "", "--demo-dest": "", "--mod-file": "", "--mod-line": "", "--filter": "", "--features": "", "--demo-crate": "", "--demo-tests": "", "--env": ""}
     hook = False
     i = 3
     while i < len(a):
@@ -42,6 +42,9 @@ def main():
             opt[a[i]] = a[i + 1]; i += 2
     wt, out = f"{base}/{pid}/wt", f"{base}/{pid}/out/{k}"
     env = dict(os.environ, CARGO_TARGET_DIR=f"{base}/{pid}/target", TMPDIR=f"{base}/{pid}/tmp", CARGO_NET_OFFLINE="true", CARGO_INCREMENTAL="0")
+    for kv in opt["--env"].split():
+        k_, v_ = kv.split("=", 1)
+        env[k_] = v_
     os.makedirs(f"{base}/{pid}/tmp", exist_ok=True)
     log = open(f"{out}/verify.log", "w")
     res = {"property": pid, "k": int(k), "when": time.strftime("%Y-%m-%dT%H:%M:%S"), "confirmed": False}
